@@ -96,7 +96,14 @@ fn ec_individuals(seed: u64, shard: usize, rounds: usize, rep: &mut Report) {
         let mut g = Xo::derive(seed, "C07-ec", (shard * 1_000_003 + r) as u64);
         let n = 1 + g.usize_below(8);
         let genomes = 1 + g.usize_below(3);
-        let pop: Vec<_> = (0..n).map(|_| ind_s(g.below(genomes as u64) as u32, &[g.range(-3, 3), g.range(-3, 3)])).collect();
+        // result vectors of different lengths within one population: ordering follows the totals
+        let uneven = g.chance(1, 2);
+        let pop: Vec<_> = (0..n)
+            .map(|_| {
+                let len = if uneven { g.usize_below(5) } else { 2 };
+                ind_s(g.below(genomes as u64) as u32, &(0..len).map(|_| g.range(-3, 3)).collect::<Vec<_>>())
+            })
+            .collect();
         let total = |i: &crate::common::IndS| i.test_results.total_result.0;
         let max = pop.iter().map(total).max().unwrap();
         let min = pop.iter().map(total).min().unwrap();
